@@ -87,7 +87,12 @@ func mutateHostile(rt *rapid.T, r *Rendered, le bool) ([]byte, string, bool) {
 		sp := prefixes[rapid.IntRange(0, len(prefixes)-1).Draw(rt, "which")]
 		cur := getUint(w[sp.Off:sp.Off+sp.Len], sp.Len, le)
 		var nv uint64
-		switch rapid.IntRange(0, 4).Draw(rt, "pv") {
+		switch rapid.IntRange(0, 6).Draw(rt, "pv") {
+		case 5: // a power of two (products with an element width wrap in narrow arithmetic), +-1
+			nv = (uint64(1) << uint(rapid.IntRange(0, 8*sp.Len-1).Draw(rt, "pow"))) + uint64(rapid.SampledFrom([]int{0, 0, 1, -1}).Draw(rt, "pm"))
+			nv &= sp.Max
+		case 6: // a multiple of 0x1000 / 0x100
+			nv = (rapid.Uint64().Draw(rt, "mul") << uint(rapid.SampledFrom([]int{8, 12, 13, 16}).Draw(rt, "sh"))) & sp.Max
 		case 0:
 			nv = sp.Max
 		case 1:
